@@ -125,14 +125,34 @@ class Rational:
         self.ite_cache = {}
 
     # -- normal forms --------------------------------------------------------------------
-    def reduce(self, poly):
-        for s, x in self.relations:
-            k = self.cv.atoms.get(s.get_id())
-            if k is None:
-                continue
+    def _relation_atoms(self):
+        """atom index -> numerator polynomial X with atom*atom == X.  An atom matches a relation (s, X)
+        if it is s itself, or an application sqrt(arg) whose argument has the same normal form as X
+        (z3's simplifier may have re-arranged the argument of the same square root)."""
+        out = {}
+        for s_term, x in self.relations:
             xn, xd = self.cv.conv(x)
             if not (xd.is_const() and xd.const_value() == 1):
                 raise ringnf.TooBig()
+            k = self.cv.atoms.get(s_term.get_id())
+            if k is not None:
+                out[k] = xn
+            if not (z3.is_app(s_term) and s_term.decl().name() == "sqrt"):
+                continue
+            for i, t in enumerate(list(self.cv.atom_terms)):
+                if i in out or not (z3.is_app(t) and t.num_args() == 1 and t.decl().name() == "sqrt"):
+                    continue
+                an, ad = self.cv.conv(t.arg(0))
+                if ad.is_const() and ad.const_value() == 1 and (an - xn).is_zero():
+                    out[i] = xn
+        return out
+
+    def reduce(self, poly):
+        if not self.relations:
+            return poly
+        for k, xn in self._relation_atoms().items():
+            if not any(a == k for mono in poly.t for a, _ in mono):
+                continue
             out = ringnf.Poly()
             for mono, coef in poly.t.items():
                 e = dict(mono).get(k, 0)
@@ -391,22 +411,36 @@ class Rational:
         return None
 
     def resolve_ites(self, term):
+        """env: guards fixed by an enclosing undecided selection (inside the then-branch of If(g, a, b)
+        the guard g holds, inside the else-branch it does not)"""
         cache = self.ite_cache
 
-        def go(e):
-            k = e.get_id()
+        def strip(g):
+            neg = False
+            while z3.is_not(g):
+                g, neg = g.children()[0], not neg
+            return g.get_id(), neg
+
+        def go(e, env):
+            k = (e.get_id(), env)
             if k in cache:
                 return cache[k]
             if z3.is_app(e) and e.decl().kind() == z3.Z3_OP_ITE:
                 g, a, b = e.children()
-                g = go(g)
-                d = self.guard(g)
-                if d is True:
-                    r = go(a)
-                elif d is False:
-                    r = go(b)
+                g = go(g, env)
+                gid, neg = strip(g)
+                d = dict(env).get(gid)
+                if d is not None:
+                    d = d != neg
                 else:
-                    ra, rb = go(a), go(b)
+                    d = self.guard(g)
+                if d is True:
+                    r = go(a, env)
+                elif d is False:
+                    r = go(b, env)
+                else:
+                    ra = go(a, env + ((gid, not neg),))
+                    rb = go(b, env + ((gid, neg),))
                     if ra.get_id() == rb.get_id():
                         r = ra
                     elif z3.is_arith(ra) and self.is_zero(to_z3_real(ra) - to_z3_real(rb)) and all(self.nonzero(dv) for dv in self.inner_divisors(ra) + self.inner_divisors(rb)):
@@ -415,7 +449,7 @@ class Rational:
                         r = z3.If(g, ra, rb)
             elif z3.is_app(e) and e.num_args() > 0:
                 old = e.children()
-                ch = [go(x) for x in old]
+                ch = [go(x, env) for x in old]
                 # rebuild only what contained a resolved selection (keeps term identities stable)
                 r = e if all(a.get_id() == b.get_id() for a, b in zip(ch, old)) else e.decl()(*ch)
             else:
@@ -423,7 +457,7 @@ class Rational:
             cache[k] = r
             return r
 
-        return go(term)
+        return go(term, ())
 
 
 def _free_consts(terms):
